@@ -15,6 +15,8 @@ import six
 
 
 LWS = (' ', '\t', '\n', '\r')
+# str.strip() would also remove \x0b, \x0c and \x1c-\x1f
+_LWS = ''.join(LWS)
 
 
 class Response(object):
@@ -51,7 +53,7 @@ class Response(object):
             if line.startswith(LWS):
                 if header:
                     headers[header].append(' ')
-                    headers[header].append(line.lstrip())
+                    headers[header].append(line.lstrip(_LWS))
             else:
                 header, _colon, value = line.partition(':')
                 header = header.lower().strip()
@@ -60,7 +62,7 @@ class Response(object):
                 headers[header].append(value)
 
         self.headers = {
-            header: ''.join(value).strip()
+            header: ''.join(value).strip(_LWS)
             for header, value in headers.items()
         }
 
